@@ -493,6 +493,13 @@ var $growSlice = (slice, minCapacity) => {
         let newArray;
         if (array.constructor === Array) {
             newArray = array.slice(offset, offset + length);
+            const elem = slice.constructor.elem;
+            if (elem.kind === $kindArray || elem.kind === $kindStruct) {
+                // Arrays and structs are values: the new backing array must not share them with the old one.
+                for (let i = 0; i < length; i++) {
+                    newArray[i] = $clone(newArray[i], elem);
+                }
+            }
             newArray.length = capacity;
             const zero = slice.constructor.elem.zero;
             for (let i = slice.$length; i < capacity; i++) {
